@@ -230,3 +230,10 @@ package kvm
 //@   atcall StateDB.AddBalance requires [wholeBalanceCredited] amount != nil && amount.v == s.bal[refAddr(callContext.Contract.self)]
 //@   atcall StateDB.Suicide requires [creditedBeforeTheBalanceIsZeroed] a == refAddr(callContext.Contract.self) && (exists b common.Address :: s.bal == upd(old(s.bal), b, old(s.bal)[b] + old(s.bal)[a]))
 //@   ensures [valueMovedNotDestroyed] exists b common.Address :: kvm.StateDB.bal == upd(upd(old(kvm.StateDB.bal), b, old(kvm.StateDB.bal)[b] + old(kvm.StateDB.bal)[refAddr(callContext.Contract.self)]), refAddr(callContext.Contract.self), 0)
+
+// ---------------------------------------------------------------- C10: return data is a snapshot
+// The identity precompile returns a COPY of its input: the caller passes a slice of its own memory, and
+// the result becomes the frame's return-data buffer, which later memory writes must not change.
+//@ func (c *dataCopy) Run(in []byte) (r []byte, err error)
+//@   for C10
+//@   ensures [outputIsACopy] err == nil && (len(r) == 0 || fresh(r)) && len(r) == len(in)
